@@ -46,6 +46,9 @@ def run(ctx):
     results = expr_api.run_jobs([j for _, j in flat], ctx.use_model)
     for (tag, _), r in zip(flat, results):
         expr_api.merge(ctx, [r], tag)
+    # report the shortest failing input of each kind first
+    ctx.violations.sort(key=lambda v: len(str(v["replay"])))
+    ctx.disagreements.sort(key=lambda v: len(str(v["replay"])))
     ctx.exhaustive = True
     ctx.extra["exhaustive_scope"] = (f"all strings of ≤ {full_len} symbols over {expr_api.SYMBOLS_FULL!r} and of ≤ {core_len} symbols over "
                                      f"{expr_api.SYMBOLS_CORE!r}, each under all truth assignments of its identifiers")
